@@ -14,6 +14,7 @@ struct UserLabel {
     std::string b;
     bool operator==(const UserLabel &o) const { return a == o.a && b == o.b; }
     bool operator!=(const UserLabel &o) const { return !(*this == o); }
+    bool operator<(const UserLabel &o) const { return a != o.a ? a < o.a : b < o.b; }
 };
 inline std::ostream &operator<<(std::ostream &s, const UserLabel &l) {
     return s << "{" << l.a << "," << l.b << "}";
